@@ -32,7 +32,7 @@ impl Server {
     }
     pub fn node() -> std::io::Result<Self> {
         Self::spawn(&[
-            "node".into(),
+            std::env::var("BV_NODE").unwrap_or_else(|_| if std::path::Path::new("/usr/bin/node").exists() { "/usr/bin/node".into() } else { "node".into() }),
             "--experimental-vm-modules".into(),
             "--no-warnings".into(),
             "--stack-size=4000".into(),
@@ -44,7 +44,9 @@ impl Server {
     }
     /// A python3 JSON-lines server script under /verif/oracle/.
     pub fn python_script(name: &str) -> std::io::Result<Self> {
-        Self::spawn(&["python3".into(), "-u".into(), format!("{}/oracle/{name}", verif_root())])
+        // not the pyenv shim (`python3` on PATH is a bash wrapper that is very slow under load)
+        let py = std::env::var("BV_PYTHON").unwrap_or_else(|_| if std::path::Path::new("/usr/bin/python3").exists() { "/usr/bin/python3".into() } else { "python3".into() });
+        Self::spawn(&[py, "-u".into(), format!("{}/oracle/{name}", verif_root())])
     }
     fn restart(&mut self) -> std::io::Result<()> {
         let _ = self.child.kill();
